@@ -62,7 +62,7 @@ Definition op_shape_eqb (a b : op) : bool :=
   | Mkdir p, Mkdir q | Utime p, Utime q | OpenC p, OpenC q | OpenX p, OpenX q | OpenL p, OpenL q
   | OpenR p, OpenR q | OpenW p _, OpenW q _ | OpenA p _, OpenA q _ | Listdir p, Listdir q
   | Remove p, Remove q => path_eqb p q
-  | Symlink t p, Symlink u q => path_eqb t u && path_eqb p q
+  | Symlink t p, Symlink u q | Rename t p, Rename u q => path_eqb t u && path_eqb p q
   | _, _ => false
   end.
 
@@ -153,7 +153,6 @@ Definition val_agree (m : mval) (o : oval) : nat :=
   | MEntry _ _ _ _, VEntry None _ _ _ _ => 1
   | MStr a, VStr b => if str_eqb a b then 0 else 1
   | MLog (LCells l), VLog l' => if list_eqb cell_eqb l l' then 0 else 1
-  | MLog LUnmodelled, VLog _ | MLog LUnmodelled, VLogTyped => 2
   | _, _ => 1
   end.
 
@@ -296,8 +295,8 @@ Definition check_oracle (c : case) : list nat :=
 (* ---- guard facts ------------------------------------------------------------------------ *)
 Definition annot_guard (w : list witem) : bool :=
   forallb (fun i => match i with
-                    | WStore m => name_ok (m_name m) && no_nl (m_desc m)
-                    | WAnnot n a => name_ok n && no_nl a
+                    | WStore m => name_ok (m_name m)
+                    | WAnnot n a => name_ok n
                     | _ => true end) w.
 
 (* the crash state has a PENDING marker on a key whose model file is complete: the crash hit a
@@ -330,9 +329,7 @@ Definition guard_tags (c : case) : list nat :=
   let f1 := f1_of c in
   tag (annot_guard (c_w1 c ++ c_w2 c)) 201
   ++ tag (log_guard (expected_log (completed_items (c_w1 c) (c_out1 c)))) 202
-  ++ tag (ds_ok f1) 203
   ++ tag (negb (retransact_crash f1 c)) 204
-  ++ tag (negb (torn_on c annot_path)) 205
   ++ tag (negb (torn_on c log_path)) 206
   ++ tag (di_guard (c_w1 c ++ c_w2 c)) 207
   ++ tag (rebind_guard (c_w1 c ++ c_w2 c)) 208.
